@@ -360,6 +360,12 @@ func evalOnce(c Case, m mode, rs *refSource, net *refNet, lab map[string]bool, r
 			lab["rejected:"+rejectable] = true
 			return pbt.Outcome{}
 		}
+		if narrowRomWord(rs, net) && strings.Contains(aerr.Err.Error(), "word size is too small") {
+			// a ROM cell is as wide as an instruction word; a CP whose text has no instruction with an immediate
+			// operand can have words narrower than a byte, and the assembler says so (creatorbm.go:258)
+			lab["rejected:romdata-on-narrow-rom-word"] = true
+			return pbt.Outcome{}
+		}
 		if m.Fuzz {
 			return pbt.Outcome{Excluded: "assembler-refuses"}
 		}
@@ -493,6 +499,29 @@ func evalOnce(c Case, m mode, rs *refSource, net *refNet, lab map[string]bool, r
 	}
 	nt := ref.Stats.BackTaken >= 1 && ref.Stats.FwdTaken >= 1 && ref.Stats.Pseudo >= 1 && maxCmp >= minCompared
 	return pbt.Outcome{NonTrivial: nt}
+}
+
+// narrowRomWord: some CP has ROM data and a text without any register load of an immediate (rset), the only
+// generated instruction whose operand makes the instruction word at least as wide as a register.
+func narrowRomWord(rs *refSource, net *refNet) bool {
+	if net == nil {
+		return false
+	}
+	for i, cp := range rs.CPs {
+		if cp.RomData == "" {
+			continue
+		}
+		wide := false
+		for _, in := range net.Progs[i].Ins {
+			if in.Op == "rset" {
+				wide = true
+			}
+		}
+		if !wide {
+			return true
+		}
+	}
+	return false
 }
 
 // cpRank: the assembler numbers the processors in the byte order of their names.
